@@ -16,7 +16,7 @@ type ForInfo struct {
 	LabelUsedInside, LabelUsedOutside, BodyStartsWithFor, NoCounter bool
 	EquBetweenBlocks, LabelledBodyStartsWithBareFor, ChainedEqu     bool
 	EquInsideBlock, LabelledBodyStartsWithSilentFor, EmptyBody      bool
-	LabelInsideBody, EquTwoLevelsDeep                               bool
+	LabelInsideBody, EquTwoLevelsDeep, EquByCounter                 bool
 }
 
 type forGen struct {
@@ -387,6 +387,41 @@ func ForProgram(t *rapid.T, cfg AsmConfig) (rc.Program, ForInfo) {
 					g.info.EquBetweenBlocks = true
 				}
 			}
+		}
+		if len(g.nestedEqus) > 0 && budget >= 4 && rapid.IntRange(0, 3).Draw(t, "equbycounter") == 0 {
+			// a definition inside a nested block whose count depends on the enclosing count
+			// variable, so that only one copy of the enclosing body defines it
+			e := g.nestedEqus[0]
+			g.nestedEqus = g.nestedEqus[1:]
+			outer := fmt.Sprintf("i%d", g.nCounter)
+			g.nCounter++
+			n := int64(rapid.IntRange(2, 3).Draw(t, "ebcouter"))
+			var cnt []rc.Tok
+			switch rapid.IntRange(0, 2).Draw(t, "ebck") {
+			case 0: // only the last copy
+				cnt = rc.Toks(rc.ID(outer), rc.OP("/"), rc.N(n))
+			case 1: // only the first copy
+				cnt = rc.Toks(rc.N(2), rc.OP("/"), rc.LP(), rc.ID(outer), rc.OP("+"), rc.N(1), rc.RP())
+			default: // only the second copy
+				cnt = rc.Toks(rc.LP(), rc.ID(outer), rc.OP("%"), rc.N(n), rc.RP(), rc.OP("/"), rc.N(2), rc.OP("+"), rc.N(0))
+				if n == 2 {
+					cnt = rc.Toks(rc.ID(outer), rc.OP("-"), rc.N(1))
+				}
+			}
+			inner := rc.Item{Kind: rc.KFor, Expr: cnt, Body: []rc.Item{e}}
+			if rapid.Bool().Draw(t, "ebcinstr") {
+				inner.Body = append(inner.Body, g.instr([]string{outer}, nil))
+			}
+			w := rc.Item{Kind: rc.KFor, Counter: outer, Expr: rc.Toks(rc.N(n)), Body: []rc.Item{inner}}
+			if rapid.Bool().Draw(t, "ebcouterinstr") {
+				w.Body = append(w.Body, g.instr([]string{outer}, nil))
+			}
+			items = append(items, w)
+			g.equs = append(g.equs, e.Labels[0])
+			g.info.EquInsideBlock = true
+			g.info.EquByCounter = true
+			g.info.Blocks += 2
+			budget -= int(n) + 2
 		}
 		if kinds[i] {
 			seq++
